@@ -85,7 +85,9 @@ class _Db:
         """A created+populated table for (key); cached per process."""
         if key in self.tables:
             return self.tables[key]
-        tname = f"{name}_{next(self.counter)}" if any(k[0] == name for k in self.tables) else name
+        tname = name
+        while tname in self.md.tables:
+            tname = f"{name}_{next(self.counter)}"
         columns = [sqlalchemy.Column(c, sqlalchemy.Integer) for c in cols]
         if not columns:
             columns = [sqlalchemy.Column("_dummy", sqlalchemy.Integer)]
